@@ -31,6 +31,7 @@
      (x) = [elem_to_pval] / PScalar, v.ProtoReflect() of a nil pointer = PMsg m None. The type assertions
      lv.( *_T_N_list) / mv.( *_T_N_map) are read as "value is a list (map) view whose element (key, value) type is the field's":
      a pval view does not carry the field it was made for (see [set_arg_okb]).
+   * In the comments of this file a Go pointer type in parentheses is written with a space, `( *T)` (otherwise a Coq comment would nest).
    * Range: the callback is a parameter ([f : nat -> pval -> bool]); the result is PRange of the calls made, in order.
    Executable definitions only. *)
 From CP Require Export Reflect.
@@ -1042,8 +1043,7 @@ Definition canon_range_field (fs : list field) (i : nat) (f : field) : list rran
     end
   end.
 
-Definition rp_fields (sch : schema) (mid : nat) : list field :=
-  match get_msg sch mid with Some md => m_fields md | None => [] end.
+Definition rp_fields (sch : schema) (mid : nat) : list field := fields_of sch mid.
 Definition rp_noneofs (sch : schema) (mid : nat) : nat :=
   match get_msg sch mid with Some md => m_oneofs md | None => 0 end.
 
